@@ -150,6 +150,8 @@ def _node_evidence(prog, fi, cls, node, recv, assigns):
 
 
 def check(prog, rep):
+    from . import pitfalls as _pit
+    rep.section(_pit.report, prog, rep, 'R12.P', ['src/optyx/core/parameters.py'], ('P1', 'P3'))
     # ------------------------------------------------------------------ F1
     ok = not prog.is_subclass("Parameter", "Constant") and not prog.is_subclass("Constant", "Parameter")
     rep.ob("R12.3", "Parameter", ok, "Parameter is not a subclass of Constant (isinstance(.., Constant) guards exclude it)" if ok else "Parameter and Constant are in a subclass relation: every `isinstance(x, Constant)` folding site would freeze parameter values", loc=prog.cls("Parameter").loc, detail="not-a-constant")
